@@ -94,6 +94,8 @@ pub struct Obs {
     pub last_any_child_pending: bool,
     /// for replier n: how many child events had happened when its registration was sent into the channel
     pub server_enq_at: Vec<usize>,
+    /// how many child events had happened when the last executed poll began
+    pub last_poll_start: usize,
     pub closed: bool,
 }
 
@@ -105,7 +107,7 @@ pub fn run_scenario(events: &[&str]) -> Obs {
     let waker = wk.clone().into();
     let mut cx = Context::from_waker(&waker);
     let mut segs: Vec<String> = vec![];
-    let mut o = Obs { line: String::new(), annotated: vec![], panicked: None, spun: false, done: false, events: vec![], n_clients: 0, n_servers: 0, last_pending: false, sleeping_for_good: false, last_any_child_pending: false, closed: false, server_enq_at: vec![] };
+    let mut o = Obs { line: String::new(), annotated: vec![], panicked: None, spun: false, done: false, events: vec![], n_clients: 0, n_servers: 0, last_pending: false, sleeping_for_good: false, last_any_child_pending: false, closed: false, server_enq_at: vec![], last_poll_start: 0 };
     let mut first = true;
     for ev in events {
         if o.done || o.panicked.is_some() { o.annotated.push(ev.split('@').next().unwrap().to_string()); continue; }
@@ -132,6 +134,7 @@ pub fn run_scenario(events: &[&str]) -> Obs {
             first = false;
             wk.0.store(0, Ordering::SeqCst);
             let start = log.lock().unwrap_or_else(|e| e.into_inner()).events.len();
+            o.last_poll_start = o.events.len();
             log.lock().unwrap_or_else(|e| e.into_inner()).spin_guard = Some(start + SPIN_LIMIT);
             let res = catch(|| topic.as_mut().poll(&mut cx));
             log.lock().unwrap_or_else(|e| e.into_inner()).spin_guard = None;
@@ -270,6 +273,34 @@ pub fn monitor(o: &Obs) -> Result<(), String> {
                 gone_at.entry(m).or_insert(idx);
             }
             _ => {}
+        }
+    }
+    // C11: a request the replier's sink refuses (it no longer fits the frame limit once tagged) is dropped, nothing
+    // else: the replier stays bound
+    for (idx, e) in o.events.iter().enumerate() {
+        if let Ev::SinkSend(i, Frame::Message(_), false) = e {
+            if *i >= V {
+                for later in &o.events[idx + 1..] {
+                    match later {
+                        Ev::SinkReady(j, A::Err) | Ev::SinkFlush(j, A::Err) | Ev::StreamEnd(j) if j == i => break,
+                        Ev::SinkSend(j, _, false) if j == i => break,
+                        Ev::Dropped(_, j) if j == i => return Err(format!("C11: replier v{} was unbound because its sink refused one request (a frame that outgrew the limit when tagged): the topic no longer serves anybody", *i - V)),
+                        _ => {}
+                    }
+                }
+            }
+        }
+    }
+    // C09 / C10: a router that sleeps while a replier is bound watches that replier's stream (its messages and its
+    // departure are what re-binding depends on)
+    if at_rest && !o.done && !o.closed {
+        for n in 0..o.n_servers {
+            let enq = o.server_enq_at[n];
+            let dropped = o.events.iter().any(|e| matches!(e, Ev::Dropped(_, i) if *i == V + n));
+            let rejected = rejected_seen.get(&n).map(|s| s.iter().any(|x| x.starts_with("se"))).unwrap_or(false);
+            if enq <= o.last_poll_start && !dropped && !rejected && (0..n).all(|m| gone_at.contains_key(&m)) {
+                return Err(format!("C09/C10: the router sleeps, with nobody holding its waker, although replier v{n} is registered and neither served nor rejected nor gone: its stream is not being watched"));
+            }
         }
     }
     // C09 / C16
